@@ -164,8 +164,8 @@ func (ctx *parseContext) expandSingleValueMacro(arg string) (string, error) {
 		}
 
 		var value string
-		if ctx.macros[macroName] != nil {
-			// Macros have at least one argument.
+		if len(ctx.macros[macroName]) != 0 {
+			// The macro may be defined but expand to no arguments.
 			value = ctx.macros[macroName][0]
 		}
 
